@@ -98,6 +98,7 @@ type bAct struct {
 	L      string   `json:"l"`
 	F      string   `json:"f"`
 	Ka     int      `json:"ka"`
+	Ty     string   `json:"ty"`
 }
 type bPkt struct {
 	Ty    string `json:"ty"`
@@ -171,6 +172,9 @@ func (p bPkt) key() string {
 	id := fmt.Sprint(p.ID)
 	if p.Ty == "PUBLISH" && p.ID != 0 {
 		id = "nz"
+	}
+	if p.Ty == "PUBREL" && p.ID != 0 {
+		id = "nz" // checked separately against the PUBREC it answers
 	}
 	return fmt.Sprintf("%s id=%s q=%d r=%v t=%s pl=%s codes=%v sp=%v code=%d", p.Ty, id, p.Q, p.R, p.T, p.Pl, p.Codes, p.Sp, p.Code)
 }
@@ -279,6 +283,9 @@ type bConn struct {
 	c      net.Conn
 	svc    uint64
 	closed bool
+	q1ids  []int // identifiers of QoS 1 / QoS 2 deliveries this client has not answered yet
+	q2ids  []int
+	relID  int // identifier of the last PUBREC this client sent
 	// background reader (every connection is drained all the time: a fan-out larger than a ring
 	// must not stall the publisher while the replayer looks at another connection)
 	mu   sync.Mutex
@@ -566,6 +573,8 @@ func tagFor(a bAct, exp [][]bPkt, got []bPkt, conn string) string {
 		}
 	}
 	switch {
+	case a.A == "subrec" || a.A == "suback":
+		return "C12"
 	case a.A == "refuse":
 		return "C11"
 	case a.A == "connect":
@@ -729,6 +738,33 @@ func runBehaviour(steps []bStep, auth string, maxqos int, res *Result) *brokerMi
 			m.c.Close()
 			m.closed = true
 			skipBarrier[a.C] = true
+		case "subrec", "suback":
+			m := r.conns[a.C]
+			var b []byte
+			switch {
+			case a.A == "subrec":
+				if len(m.q2ids) == 0 {
+					return &brokerMismatch{where + ": the specification expects an unanswered QoS 2 delivery on " + a.C + ", none was received", "C12"}
+				}
+				m.relID = m.q2ids[0]
+				m.q2ids = m.q2ids[1:]
+				b = []byte{0x50, 2, byte(m.relID >> 8), byte(m.relID)}
+			case a.Ty == "PUBACK":
+				id := 999
+				if len(m.q1ids) > 0 {
+					id, m.q1ids = m.q1ids[0], m.q1ids[1:]
+				}
+				b = []byte{0x40, 2, byte(id >> 8), byte(id)}
+			default:
+				id := m.relID
+				if id == 0 {
+					id = 998
+				}
+				b = []byte{0x70, 2, byte(id >> 8), byte(id)}
+			}
+			if _, err := m.c.Write(b); err != nil {
+				return &brokerMismatch{where + ": write: " + err.Error(), "C05"}
+			}
 		case "apipublish":
 			msg := message.NewPublishMessage()
 			msg.SetTopic([]byte(a.T))
@@ -830,6 +866,19 @@ func runBehaviour(steps []bStep, auth string, maxqos int, res *Result) *brokerMi
 				if live {
 					for gi := range g {
 						g[gi].R = false
+					}
+				}
+			}
+			if m := r.conns[name]; m != nil {
+				for _, pk := range g {
+					if pk.Ty == "PUBLISH" && pk.Q == 1 {
+						m.q1ids = append(m.q1ids, pk.ID)
+					}
+					if pk.Ty == "PUBLISH" && pk.Q == 2 {
+						m.q2ids = append(m.q2ids, pk.ID)
+					}
+					if pk.Ty == "PUBREL" && a.A == "subrec" && name == a.C && pk.ID != m.relID {
+						return &brokerMismatch{fmt.Sprintf("%s: PUBREL carries identifier %d, the PUBREC it answers had %d", where, pk.ID, m.relID), "C12"}
 					}
 				}
 			}
